@@ -149,6 +149,32 @@ CLAIMED = {
    '(they rely on the spec printer plus an injectivity gate).',
    'TLA+ grammar/literal specification model-checked by TLC; round-trip replay of exported programs and the corpus on the real '
    'parser and printer; TLC validation of recorded printed expressions and literals'),
+ 'C07': ('DESIGN.md section 3 / C07, 10.5',
+   'spec/RecordReader.tla holds the declarative reference Records(input, RS) (newline, single byte incl. 0xFF, multi-byte character, '
+   '"" paragraph mode, regex RS via Regex.tla) and the chunked reader as an explicit machine (Deliver(k) for any chunk size, '
+   'DeliverEOF, Split with the intended "wait while the decision could still change" splitter). TLC explores every delivery '
+   'schedule of every input of <= 5/7 bytes x 11/16 RS settings (43k-1.7M states) and proves ChunkIndependence, PrefixSafe, NR '
+   'counting and the statement\'s equations (lossless concatenation for regex RS, the join law for one-byte RS, the newline/CR law, '
+   'paragraph shape). Exported (input, RS, Records) cases are replayed on the real interpreter through a Config.Stdin reader that '
+   'returns exactly the scheduled chunks, under all 2^(n-1) chunkings for n <= 8 (12k cases quick, 130-180k thorough = 15M runs), '
+   'single splits and 1-byte delivery for longer inputs, and at the 64 KiB buffer edge; recorded Read/record interleavings are '
+   'validated by Trace_RecordReader.',
+   'Trusted: TLC, RecordReader.tla/Regex.tla, the chunking reader. RT is judged against the specification only where the statement '
+   'defines it (regex RS), otherwise across schedules. Not covered: RS changed while reading, several files, records over 10 MiB, '
+   'nullable or anchored regexes.',
+   'TLA+ chunked-reader machine model-checked over all schedules; replay under all chunkings; TLC validation of recorded read/record interleavings'),
+ 'C08': ('DESIGN.md section 3 / C08, 10.5',
+   'spec/CsvReader.tla is a character-level lenient RFC 4180 reader (states fs/uq/q/qq; CRLF, CR at EOF, blank and comment lines, '
+   'BOM, header, each row\'s own text) plus the intended record-at-a-time scanner; Csv.tla is the writer. TLC explores every delivery '
+   'schedule of inputs of <= 4/5 bytes in 6 configurations (separators , tab | e-acute; comment #; header) with and without BOM '
+   '(196k-1.3M states) and proves ChunkIndependence, PrefixSafe, the row laws (own text re-parses to the same fields) and the '
+   'round-trip law CsvRead(CsvEncode(f)) = f. Replay sets INPUTMODE and tries all chunkings of exported inputs (11k quick / 306k '
+   'thorough cases), comparing NR, NF, fields, FIELDS and $0; the round trip writes exported field lists with print and with the '
+   '$0 rebuild under OUTPUTMODE and reads them back whole and byte by byte; recorded traces are validated by Trace_CsvReader.',
+   'Trusted: TLC, CsvReader.tla/Csv.tla (sanity-gated against encoding/csv on every case), the chunking reader. $0 is compared '
+   'modulo carriage returns and a trailing LF of an unterminated quoted field. Not covered: two-argument split(), inputs ending in '
+   'a bare CR (compared across schedules only), round-trip fields longer than 2 bytes.',
+   'TLA+ CSV reader/writer model-checked over all schedules and the round-trip law; replay under all chunkings and write-read round trips; TLC trace validation'),
  'C06': ('DESIGN.md section 3 / C06',
    'TLC checks exhaustively (all operation histories up to depth 4-5 over a menu of ~60 operation instances) that the lazy '
    'record representation refines the abstract AWK record of spec/Record.tla; every history of <= 3 operations exported by '
@@ -161,7 +187,7 @@ CLAIMED = {
 }
 
 # checks that have been verified on the unchanged tree (seeds 1-3) and are therefore claimed
-REGISTERED = {'C01', 'C02', 'C04', 'C06', 'C10', 'C11', 'C18'}
+REGISTERED = {'C01', 'C02', 'C04', 'C05', 'C06', 'C07', 'C08', 'C10', 'C11', 'C18', 'C20'}
 
 m = {
  'version': 1,
